@@ -156,7 +156,10 @@ def famCli (H : HashFn) (kv : KV) : String × String :=
     let ver := KV.nat kv "ver" 2
     let root := (parseCid (KV.getD kv "root" "")).getD default
     let loads := parseCids (KV.getD kv "loads" "-")
-    let get : Cid → Bytes := fun c => ((blocks.find? fun b => b.cid == c).map (·.data)).getD []
+    -- the source is a read-only blockstore with default options: a key is answered by the first
+    -- section carrying its multihash
+    let get : Cid → Bytes := fun c =>
+      ((blocks.find? fun b => b.cid.mhCode == c.mhCode && b.cid.digest == c.digest).map (·.data)).getD []
     let eng := KV.getD kv "eng" "ok"
     let o : WOpts := {}
     let res :=
